@@ -357,6 +357,9 @@ static ares_status_t ares_qcache_insert_int(ares_qcache_t           *qcache,
     return ARES_EREFUSED;
   }
 
+  /* Make room: drop what has expired in the meantime */
+  ares_qcache_expire(qcache, now);
+
   entry = ares_malloc_zero(sizeof(*entry));
   if (entry == NULL) {
     goto fail; /* LCOV_EXCL_LINE: OutOfMemory */
@@ -415,8 +418,11 @@ ares_status_t ares_qcache_fetch(ares_channel_t           *channel,
     return ARES_ENOTFOUND;
   }
 
-  ares_qcache_expire(channel->qcache, now);
-
+  /* Expired entries are not destroyed here, only passed over: a request may
+   * be started from inside a completion callback that was handed a cached
+   * record (a cache hit, or an answer that went into the cache on arrival)
+   * and is still looking at it.  They are destroyed when the next answer is
+   * inserted, which never happens inside such a callback. */
   key = ares_qcache_calc_key(dnsrec);
   if (key == NULL) {
     status = ARES_ENOMEM; /* LCOV_EXCL_LINE: OutOfMemory */
@@ -424,7 +430,7 @@ ares_status_t ares_qcache_fetch(ares_channel_t           *channel,
   }
 
   entry = ares_htable_strvp_get_direct(channel->qcache->cache, key);
-  if (entry == NULL) {
+  if (entry == NULL || entry->expire_ts <= now->sec) {
     status = ARES_ENOTFOUND;
     goto done;
   }
